@@ -3,7 +3,7 @@
 # applies /verif/seeded/<id>/patch.diff to /repo, runs the registered quick check of the property it breaks, and always reverts.
 ID="$1"; shift
 D=/verif/seeded/$ID
-PROP=$(python3 -c "import json;print(json.load(open('$D/meta.json'))['property'])")
+PROP=${ID%%-*}
 cd /repo || exit 2
 git diff --quiet -- include || { echo "/repo has local changes; refusing"; exit 2; }
 git apply "$D/patch.diff" || { echo "patch does not apply"; exit 2; }
